@@ -134,3 +134,57 @@ def replay(path):
         return mgr_single.replay(r)
     print("no re-execution available for this engine; the file documents the failing case")
     return 0
+
+
+@prop("C12")
+def c12():
+    if _q():
+        plans = [dict(universe=u, variant="xfer", depth=2, emitidx=False) for u in U] + \
+                [dict(universe=u, variant="xfer_extras", depth=7, simulate=25, emitidx=False, fan_keep=0.1) for u in U]
+        modes, hs = ("compiled",), (0,)
+    else:
+        plans = [dict(universe=u, variant="xfer", depth=3, emitidx=False) for u in U] + \
+                [dict(universe=u, variant="xfer_extras", depth=10, simulate=600, emitidx=False) for u in U]
+        modes, hs = ("compiled", "pure"), (0, 1)
+    return me.run("C12", "model_checking",
+                  "Manager.tla with the Transfer actions pickle_copy / pickle_orig (pickle.loads(pickle.dumps(manager)) as a stuttering step, the behaviour then "
+                  "continues on the copy resp. on the original): the round trip must succeed, verify() must pass, the copy's projection must equal the spec state, "
+                  "every later step on either side must conform to the spec, and the other side must stay exactly as it was (independence). "
+                  "non-trivial = transition whose triggered task set is non-empty",
+                  plans, tags=["C12"], modes=modes, hashseeds=hs, queries=False)
+
+
+@prop("C13")
+def c13():
+    if _q():
+        plans = [dict(universe=u, variant="xfer", depth=2, emitidx=False) for u in U] + \
+                [dict(universe=u, variant="xfer", depth=6, simulate=25, emitidx=False, fan_keep=0.15) for u in U]
+        modes, hs = ("compiled",), (0, 1)
+    else:
+        plans = [dict(universe=u, variant="xfer", depth=3, emitidx=False) for u in U] + \
+                [dict(universe=u, variant="xfer", depth=9, simulate=600, emitidx=False) for u in U]
+        modes, hs = ("compiled", "pure"), (0, 1, 2, 3)
+    return me.run("C13", "translation_validation",
+                  "per-program validation of the code mk_fun/gen_fun emit: at every reachable state of Manager.tla and for every 1- and 2-element tuple of "
+                  "undefined leaf references, the generated setter is called with the menu values; the containers must equal the spec's GenFun successor, which is "
+                  "DEFINED as assigning the values one after the other through the manager (TLC asserts the batch formulation agrees), and the source text must "
+                  "list exactly the triggered expression tasks, once each, in an order allowed by true data flow. non-trivial = non-empty triggered set",
+                  plans, tags=["C13"], modes=modes, hashseeds=hs, queries=False)
+
+
+@prop("C11")
+def c11():
+    if _q():
+        plans = [dict(universe=u, variant="xfer", depth=2, emitidx=False) for u in U] + \
+                [dict(universe=u, variant="xfer_extras", depth=7, simulate=25, emitidx=False, fan_keep=0.1) for u in U]
+        modes, hs, keys = ("compiled",), (0,), ("plain", "hostile")
+    else:
+        plans = [dict(universe=u, variant="xfer", depth=3, emitidx=False) for u in U] + \
+                [dict(universe=u, variant="xfer_extras", depth=10, simulate=600, emitidx=False) for u in U]
+        modes, hs, keys = ("compiled", "pure"), (0, 1), ("plain", "hostile")
+    return me.run("C11", "model_checking",
+                  "Manager.tla with the Transfer actions dumpload (fresh manager over equal containers, load(dump())), copy_plain, copy_bind (copy_expr_from with the "
+                  "label rebound to a nested reference) and copy_keep (overwrite=False over a pre-existing definition): after the transfer the new manager's "
+                  "projection must equal the spec state and every later step on it must conform (reacts identically). Keys: plain and hostile (quotes, brackets, "
+                  "text containing the container label, unicode, ints, floats, tuples). non-trivial = non-empty triggered set",
+                  plans, tags=["C11"], keys=keys, modes=modes, hashseeds=hs, queries=False)
